@@ -1,4 +1,5 @@
 import Crv.Cand
+import Crv.Proofs.Skeleton
 import Crv.Props.C06
 import Crv.Props.C16
 import Crv.Proofs.ReaderEnvelope
@@ -343,5 +344,15 @@ def leaf : CertA := ⟨5, 100, 7, 42, some 9, .ecdsa, none⟩
 def ca : CertA := ⟨1, 7, 7, 1, some 9, .ecdsa, some true⟩
 example : verifyCRL (fun k => k == 5) 7 (some ⟨some 9, none, none⟩) .ecdsa [[leaf, ca]] [] = none := by decide
 example : verifyCRL (fun k => k == 1) 7 (some ⟨some 9, none, none⟩) .ecdsa [[leaf, ca]] [] = some ⟨ca, .chain 1⟩ := by decide
+
+/-- The hand-written `Reader` model this property rests on was transcribed from exactly these sources: the fingerprints are
+recomputed from /repo on every run (tools/extract/skeleton.go), so any change to one of the functions breaks this obligation. -/
+theorem reader_sources_as_transcribed : Crv.Generated.skeletonReader = Crv.Skeleton.expectedReader :=
+  Crv.Skeleton.reader_sources_as_transcribed
+
+/-- The hand-written `Cand` model this property rests on was transcribed from exactly these sources: the fingerprints are
+recomputed from /repo on every run (tools/extract/skeleton.go), so any change to one of the functions breaks this obligation. -/
+theorem cand_sources_as_transcribed : Crv.Generated.skeletonCand = Crv.Skeleton.expectedCand :=
+  Crv.Skeleton.cand_sources_as_transcribed
 
 end Crv.Props.C04
